@@ -829,6 +829,20 @@ def listing_tables(T):
     fmt_rows = ", ".join(f"({int(b, 8) if b else 0}, {T.lean_str(a or c)}.toList)" for b, a, c in pieces)
     opn = {"Add": 0, "Remove": 1, "Set": 2}
 
+    # ---- `command -v` (wave 3c): the alias line and the keyword line of `describe`
+    ident = squash(strip_comments(T.read("yash-builtin/src/command/identify.rs")))
+    for need, what in [
+        ('write!(result,"alias ")?;ifalias.name.starts_with(\'-\'){write!(result,"-- ")?;}'
+         'writeln!(result,"{}={}",quoted(&alias.name),quoted(&alias.replacement))', "the alias line `alias [-- ]{}={}`"),
+        ('Categorization::Keyword=>{ifverbose{writeln!(result,"{}: keyword",name.value)}else{writeln!(result,"{}",name.value)}}',
+         "the keyword line"),
+    ]:
+        if need not in ident:
+            T.fail(f"command/identify.rs describe: {what} has changed")
+    cat = ident[ident.index("fncategorize"):] if "fncategorize" in ident else T.fail("identify.rs: categorize not found")
+    if not (0 <= cat.find("Categorization::Keyword") < cat.find("Categorization::Alias")):
+        T.fail("identify.rs categorize: a reserved word is no longer categorised before the alias lookup")
+
     # ---- every producer of quoter output (wave 3b): a new one fails the check loudly until it is classified
     import os
     classes = {
@@ -837,7 +851,7 @@ def listing_tables(T):
         "yash-builtin/src/trap.rs": "listing",                       # trap, trap -p
         "yash-builtin/src/typeset/print_variables.rs": "listing",    # typeset -p, export -p, readonly -p
         "yash-builtin/src/typeset/print_functions.rs": "listing",    # typeset -fp (attribute lines modelled)
-        "yash-builtin/src/command/identify.rs": "listing-unmodelled",  # command -v: `alias [-- ]n=v`, quoted paths
+        "yash-builtin/src/command/identify.rs": "listing",            # command -v: `alias [-- ]n=v` (modelled); -V messages
         "yash-builtin/src/common/syntax.rs": "message",              # error annotations (suggested spelling)
         "yash-builtin/src/kill/syntax.rs": "message",
         "yash-builtin/src/set/syntax.rs": "message",
